@@ -1,14 +1,114 @@
-import QP.Model.C17
+import QP.Proofs.C17Scale
+import QP.Proofs.C17Labels
 /-! Property theorems for C17 (the increment-command program plays the same voltage staircase). -/
 namespace QP.Props.C17
 open QP.C17
 
-/-- the documented increment resolution -/
+instance instDecEqExcept {ε α : Type} [DecidableEq ε] [DecidableEq α] : DecidableEq (Except ε α)
+  | .ok a, .ok b => if h : a = b then isTrue (by rw [h]) else isFalse (by intro h'; cases h'; exact h rfl)
+  | .error a, .error b => if h : a = b then isTrue (by rw [h]) else isFalse (by intro h'; cases h'; exact h rfl)
+  | .ok _, .error _ => isFalse (by intro h; cases h)
+  | .error _, .ok _ => isFalse (by intro h; cases h)
+
+/-- the documented increment resolution `DEFAULT_INCREMENT_RESOLUTION = 1e-9` -/
 def res9 : Rat := 1 / 1000000000
+
+/-! ## the judge is the specification -/
+
+theorem valsMatchB_iff (tol : Rat) : ∀ (a b : List (Option Rat)), valsMatchB tol a b = true ↔ valsMatch tol a b
+  | [], [] => by simp [valsMatchB, valsMatch]
+  | [], _ :: _ => by simp [valsMatchB, valsMatch]
+  | none :: _, _ => by simp [valsMatchB, valsMatch]
+  | some _ :: _, [] => by simp [valsMatchB, valsMatch]
+  | some _ :: _, none :: _ => by simp [valsMatchB, valsMatch]
+  | some a :: as, some b :: bs => by
+    simp only [valsMatchB, valsMatch, Bool.and_eq_true, decide_eq_true_eq, valsMatchB_iff tol as bs]
+
+/-- the executable judge `stairsMatchB` decides `StairsMatch` -/
+theorem stairsMatchB_iff (tol : Rat) : ∀ (a b : History), stairsMatchB tol a b = true ↔ StairsMatch tol a b
+  | [], [] => by simp [stairsMatchB, StairsMatch]
+  | [], _ :: _ => by simp [stairsMatchB, StairsMatch]
+  | _ :: _, [] => by simp [stairsMatchB, StairsMatch]
+  | (t, v) :: r, (t', v') :: r' => by
+    simp only [stairsMatchB, StairsMatch, Bool.and_eq_true, decide_eq_true_eq, valsMatchB_iff,
+      stairsMatchB_iff tol r r', and_assoc]
+
+/-! ## hardware scaling -/
+
+/-- `_transform_linspace_commands`: executing the amplitude/offset-scaled commands produces, for every
+fuel, the affine image `(v - offset) / amplitude` of what the original commands produce (same times,
+same duration, same errors) — for ALL command lists. -/
+theorem scaling (amps offs : List Rat) (cmds cmds' : List Cmd) (h : scale amps offs cmds = .ok cmds')
+    (fuel nch : Nat) :
+    run fuel nch cmds' =
+      match run fuel nch cmds with
+      | .error e => .error e
+      | .ok (hist, t) => .ok (affineHist amps offs hist, t) := by
+  simp only [run, Scale.scale_buildTargets h]
+  cases buildTargets cmds 0 (fun _ => none) with
+  | error e => rfl
+  | ok tg =>
+    simp only
+    rcases Scale.runLoop_rel h tg fuel 0 (fun _ => none) _ _ (Scale.rel_init amps offs nch) with
+      ⟨e, h1, h2⟩ | ⟨w, w', h1, h2, hr⟩
+    · rw [h1, h2]
+    · rw [h1, h2]; simp only [hr.hist, hr.time]
+
+/-- scaling fails exactly on amplitude 0 / missing channel entries, never silently -/
+theorem scaling_rejects_zero_amplitude (offs : List Rat) (ch : Nat) (v : Rat) (k : Key) (rest : List Cmd)
+    (amps : List Rat) (ha : amps[ch]? = some 0) (ho : offs[ch]?.isSome) :
+    scale amps offs (.set ch v k :: rest) = .error .zeroDivision := by
+  obtain ⟨o, ho⟩ := Option.isSome_iff_exists.mp ho
+  simp [scale, scaleCmd, ha, ho]
+
+/-! ## VM termination (all programs, including the known-finding classes) -/
+
+/-- The command list produced by the translator always has distinct labels and properly nested loops,
+so `set_commands` accepts it and the VM halts: beyond some fuel the run never reports `fuel`
+and its result no longer depends on the fuel. -/
+theorem vm_terminates (res : Rat) (prog : List Node) (cmds : List Cmd) (nch : Nat)
+    (h : translate res prog = .ok cmds) :
+    ∃ fuel0, ∀ fuel, fuel0 ≤ fuel →
+      run fuel nch cmds ≠ .error .fuel ∧ run fuel nch cmds = run fuel0 nch cmds := by
+  rw [Struct.translate_eq] at h
+  cases ht : Struct.trSL prog (Struct.TS.init res) with
+  | error e => rw [ht] at h; cases h
+  | ok r =>
+    obtain ⟨s, c⟩ := r
+    rw [ht] at h
+    cases h
+    have hl := (Struct.trSL_labels prog _ _ _ ht).2.1
+    obtain ⟨fuel0, hrun⟩ := Struct.run_flat s hl nch
+    refine ⟨fuel0, fun fuel hf => ?_⟩
+    rw [hrun fuel hf, hrun fuel0 (Nat.le_refl _)]
+    refine ⟨?_, rfl⟩
+    cases hx : VMS.execL s (VM.init nch) with
+    | ok vm => simp
+    | error e =>
+      -- a structured execution never reports `fuel`
+      have := VMS.execL_no_fuel s (VM.init nch)
+      rw [hx] at this
+      simpa using this
+
+/-! ## PF-22 (open): repetitions inside a translation state their body changes -/
 
 /-- PF-22 witness: `for i in range(3): repeat 1: hold(a = i)` -/
 def pf22Witness : List Node := [.iter [.rep [.hold [0] [some [1]] 1] 1] 3]
 
-theorem pf22_in_class : inPF22 res9 1 pf22Witness = true := by decide +kernel
+theorem pf22_witness_in_class : inPF22 res9 1 pf22Witness = true := by decide +kernel
+
+/-- on the witness the translated program plays every step twice: the property is false of the model -/
+def pf22WitnessCmds : List Cmd :=
+  [.set 0 0 [1000000000], .wait 1, .label 0 0, .wait 1, .jmp 0,
+   .label 1 2, .inc 0 1 [1000000000], .wait 1, .label 2 0, .wait 1, .jmp 2, .jmp 1]
+
+/-- on the witness the translated program plays every step twice: the full-strength statement
+`run (translate prog) = unrollStairs prog` is false of the model (and of the code, replayed by the harness) -/
+theorem vm_translate_counterexample :
+    translate res9 pf22Witness = .ok pf22WitnessCmds ∧
+      run 100 1 pf22WitnessCmds =
+        .ok ([(0, [some 0]), (1, [some 0]), (2, [some 1]), (3, [some 1]), (4, [some 2]), (5, [some 2])], 6) ∧
+      unrollStairs pf22Witness = ([(0, [0]), (1, [1]), (2, [2])], 3) := by
+  refine ⟨?_, ?_, ?_⟩ <;> decide +kernel
 
 end QP.Props.C17
